@@ -40,6 +40,12 @@ static inline Bn value_of_code(const std::string& c) {
     if (c.size() > 1 && c[0] == 'x') { std::vector<uint8_t> b = unhex(c.substr(1)); b.resize(32); return Bn::from_le(b.data(), 32); }
     return Bn((uint64_t) strtoull(c.c_str(), nullptr, 10));
 }
+// A 48-byte digest whose hash-to-curve walk passes 34 consecutive x values that are not x coordinates of curve points (probability 2^-34 per
+// digest; found offline by tools/run_search.cpp, re-verified through the library wherever it is used). j = 0..3 starts the walk j steps in.
+static inline std::string long_walk_digest(unsigned j) {
+    Bn x0 = Bn::from_hex("0024fc4983fefcb7c3607edcece81f66d677f402e8273cb552cda48bb083b992314c5ca6081ac6ae5f31828843d403c7");
+    uint8_t b[48]; Bn::add(x0, Bn((uint64_t) (j % 4))).to_be(b, 48); return hex(b, 48);
+}
 // a random member of the GLV-collision family (see glv_scalar), biased towards d0 == d1 and small t
 template <typename RNG> static inline std::string glv_code(RNG& r) {
     static const int ds[] = {1, 3, 5, 7}; int d0 = ds[r.below(4)], d1 = r.chance(2, 3) ? d0 : ds[r.below(4)];
